@@ -100,8 +100,9 @@ pub fn check_cli_key(c: &CliKey) -> CheckResult {
     let skb = gen::key32(c.sk, "c15-sk"); let saltb = gen::key32(c.sk ^ 5, "c15-salt");
     let locked = locked_cached(&skb, c.pw.as_bytes(), &saltb);
     let given = match c.bit { Some(b) => { let mut blob = kspec::base64_decode(&locked).ok_or("lock produced a string that is not strict base64")?; let b = b % (84 * 8); blob[b / 8] ^= 1 << (b % 8); kspec::base64(&blob) } None => locked.clone() };
-    let old = if c.wrong_pw { format!("{}~", c.pw) } else { c.pw.clone() };
-    let sb = Sandbox::new();
+    // a wrong password: the right one plus a character, or (for the key locked under "alice") the name of a file that holds "alice"
+    let old = if c.wrong_pw { if c.pw == "alice" && c.sk % 2 == 1 { "@pw".to_string() } else { format!("{}~", c.pw) } } else { c.pw.clone() };
+    let sb = Sandbox::new(); sb.write("pwfile", b"alice\n"); sb.write("pw", b"alice");
     let (r, what) = match c.cmd % 4 {
         0 => (sb.cmd(&["key", "extract-pub", &given, "--env-pass"]).env("KESTREL_PASSWORD", &old).run(), "extract-pub"),
         1 => (sb.cmd(&["key", "change-pass", &given, "--env-pass"]).env("KESTREL_PASSWORD", &old).env("KESTREL_NEW_PASSWORD", "another password").run(), "change-pass (new password differs)"),
@@ -141,8 +142,8 @@ pub fn run(ctx: &Ctx) {
     mal.push(Case::Malformed { s: format!("{}=", valid) }); mal.push(Case::Malformed { s: format!("{}====", valid) }); mal.push(Case::Malformed { s: format!(" {}", valid) }); mal.push(Case::Malformed { s: format!("{}\n", valid) });
     ctx.sse_vec("malformed_strings", "every length 0..=130 x 6 alphabets; every position of a valid 112-character string x 8 replacement characters; padding/whitespace variants", mal, check);
     ctx.sse_vec("cli_env_password_bytes", "key generate under non-UTF-8 password bytes A, extract-pub under different bytes B: refused or told apart", vec![(b"caf\xe9".to_vec(), b"caf\xe8".to_vec()), (vec![0xff], vec![0xfe]), (vec![0xff], "\u{fffd}".as_bytes().to_vec()), (b"pw\x80".to_vec(), b"pw\x81".to_vec())].into_iter().map(|(a, b)| EnvKey { a, b }).collect(), check_env_key);
-    { let mut v = Vec::new(); for cmd in 0..4u8 { v.push(CliKey { sk: 1, pw: "alice".into(), bit: None, wrong_pw: false, cmd }); v.push(CliKey { sk: 1, pw: "alice".into(), bit: None, wrong_pw: true, cmd }); for bit in [0usize, 9, 31, 40, 300, 500, 600, 671] { v.push(CliKey { sk: 1, pw: "alice".into(), bit: Some(bit), wrong_pw: false, cmd }); } }
+    { let mut v = Vec::new(); for cmd in 0..4u8 { v.push(CliKey { sk: 1, pw: "alice".into(), bit: None, wrong_pw: false, cmd }); v.push(CliKey { sk: 2, pw: "@pwfile".into(), bit: None, wrong_pw: false, cmd }); v.push(CliKey { sk: 2, pw: "@pw".into(), bit: None, wrong_pw: true, cmd }); v.push(CliKey { sk: 1, pw: "alice".into(), bit: None, wrong_pw: true, cmd }); for bit in [0usize, 9, 31, 40, 300, 500, 600, 671] { v.push(CliKey { sk: 1, pw: "alice".into(), bit: Some(bit), wrong_pw: false, cmd }); } }
       ctx.sse_vec("cli_key_commands_fixed", "extract-pub and change-pass (new password different / equal to the old one given / empty) on an intact key, under a wrong password, and with one bit of each region changed", v, check_cli_key);
-      ctx.pbt("cli_key_commands", ctx.n(60, 1_500), || (0u64..4, prop_oneof![Just("alice".to_string()), Just(String::new()), Just("pässwörd".to_string())], proptest::option::weighted(0.6, 0usize..672), any::<bool>(), 0u8..4).prop_map(|(sk, pw, bit, wrong_pw, cmd)| CliKey { sk, pw, bit, wrong_pw: wrong_pw && bit.is_none() || (wrong_pw && sk == 0), cmd }), check_cli_key); }
+      ctx.pbt("cli_key_commands", ctx.n(60, 1_500), || (0u64..4, prop_oneof![Just("alice".to_string()), Just(String::new()), Just("pässwörd".to_string()), Just("@pwfile".to_string()), Just("@pw".to_string()), Just("file:pw".to_string())], proptest::option::weighted(0.6, 0usize..672), any::<bool>(), 0u8..4).prop_map(|(sk, pw, bit, wrong_pw, cmd)| CliKey { sk, pw, bit, wrong_pw: wrong_pw && bit.is_none() || (wrong_pw && sk == 0), cmd }), check_cli_key); }
     ctx.pbt("malformed_random", ctx.n(20_000, 500_000), || prop_oneof![12 => "[A-Za-z0-9+/=]{0,130}", 12 => "\\PC{0,60}", 12 => "[A-Za-z0-9+/]{112}", 1 => "ZWdrM[A-Za-z0-9+/]{107}"].prop_map(|s| Case::Malformed { s }), check);
 }
